@@ -145,6 +145,9 @@ def run(ctx, rep) -> None:
     for sub, text in (("1", "recovered blocks are views of the shard"), ("2", "recovery guards"), ("4", "recursion of the recovery is well-founded and three-way")):
         rep.rule(f"C07.2.{sub}", text + " (same rule as C15." + sub + ")")
     rep.attempt("recovery_agreement", recovery_agreement, ctx, rep, "C07.1", [FSDP, HSDP])
+    from .c05 import merged_dims_of_the_viewed_tensor
+
+    rep.attempt("merged_dims_of_the_viewed_tensor", merged_dims_of_the_viewed_tensor, ctx, rep, "C07.1")
     rep.attempt("sibling_pairs", sibling_pairs, ctx, rep, "C07.2", [(FSDP, HSDP, m) for m in ("_merge_and_block_parameters", "_merge_and_block_gradients", "_split_tensor_block_recovery", "_construct_composable_block_ids")] + [(DIST, FSDP, "update_params"), (DIST, FSDP, "merge_and_block_gradients")])
     rep.attempt("recovery_rules", recovery_rules, ctx, rep, "C07.2", [FSDP, HSDP])
     from .c15 import slab_arithmetic
